@@ -114,12 +114,15 @@ pub fn lex(s: &str) -> Vec<Tok> {
     let mut out = vec![];
     'outer: while i < cs.len() {
         let c = cs[i];
-        for (p, t) in SYMS.iter() {
-            let pc: Vec<char> = p.chars().collect();
-            if i + pc.len() <= cs.len() && cs[i..i + pc.len()] == pc[..] {
-                out.push(t.clone());
-                i += pc.len();
-                continue 'outer;
+        // symbols are ASCII and at most 3 characters long: compare without allocating
+        if c.is_ascii() && !c.is_ascii_alphanumeric() {
+            for (p, t) in SYMS.iter() {
+                let pb = p.as_bytes();
+                if i + pb.len() <= cs.len() && pb.iter().enumerate().all(|(k, b)| cs[i + k] == *b as char) {
+                    out.push(t.clone());
+                    i += pb.len();
+                    continue 'outer;
+                }
             }
         }
         if is_digit(c) {
@@ -280,80 +283,80 @@ impl Ast {
     /// every variable name in order of first appearance in the *text* (binder lists
     /// and binder names count as appearances)
     pub fn names(&self) -> Vec<String> {
-        fn go(a: &Ast, out: &mut Vec<String>) {
-            let push = |v: &String, out: &mut Vec<String>| {
-                if !out.contains(v) {
+        fn go(a: &Ast, out: &mut Vec<String>, seen: &mut rustc_hash::FxHashSet<String>) {
+            let mut push = |v: &String, out: &mut Vec<String>| {
+                if seen.insert(v.clone()) {
                     out.push(v.clone())
                 }
             };
             match a {
                 Ast::Var(v) => push(v, out),
-                Ast::Not(x) => go(x, out),
+                Ast::Not(x) => go(x, out, seen),
                 Ast::Q(_, vs, b) => {
                     for v in vs {
                         push(v, out);
                     }
-                    go(b, out)
+                    go(b, out, seen)
                 }
                 Ast::Fp(v, _, b) => {
                     push(v, out);
-                    go(b, out)
+                    go(b, out, seen)
                 }
-                Ast::CC(_, l, _) => l.iter().for_each(|x| go(x, out)),
-                Ast::CV(_, l, r) => l.iter().chain(r.iter()).for_each(|x| go(x, out)),
+                Ast::CC(_, l, _) => l.iter().for_each(|x| go(x, out, seen)),
+                Ast::CV(_, l, r) => l.iter().chain(r.iter()).for_each(|x| go(x, out, seen)),
                 Ast::Ite(a, b, c) => {
-                    go(a, out);
-                    go(b, out);
-                    go(c, out)
+                    go(a, out, seen);
+                    go(b, out, seen);
+                    go(c, out, seen)
                 }
                 Ast::Bin(_, l, r) => {
-                    go(l, out);
-                    go(r, out)
+                    go(l, out, seen);
+                    go(r, out, seen)
                 }
                 Ast::False | Ast::True | Ast::Ref(_) => {}
             }
         }
         let mut out = vec![];
-        go(self, &mut out);
+        go(self, &mut out, &mut rustc_hash::FxHashSet::default());
         out
     }
     /// names with at least one occurrence not enclosed by a binder of the same name
     pub fn free_names(&self) -> Vec<String> {
-        fn go(a: &Ast, bound: &mut Vec<String>, out: &mut Vec<String>) {
+        fn go(a: &Ast, bound: &mut Vec<String>, out: &mut Vec<String>, seen: &mut rustc_hash::FxHashSet<String>) {
             match a {
                 Ast::Var(v) => {
-                    if !bound.contains(v) && !out.contains(v) {
+                    if !bound.contains(v) && seen.insert(v.clone()) {
                         out.push(v.clone())
                     }
                 }
-                Ast::Not(x) => go(x, bound, out),
+                Ast::Not(x) => go(x, bound, out, seen),
                 Ast::Q(_, vs, b) => {
                     let n = bound.len();
                     bound.extend(vs.iter().cloned());
-                    go(b, bound, out);
+                    go(b, bound, out, seen);
                     bound.truncate(n)
                 }
                 Ast::Fp(v, _, b) => {
                     bound.push(v.clone());
-                    go(b, bound, out);
+                    go(b, bound, out, seen);
                     bound.pop();
                 }
-                Ast::CC(_, l, _) => l.iter().for_each(|x| go(x, bound, out)),
-                Ast::CV(_, l, r) => l.iter().chain(r.iter()).for_each(|x| go(x, bound, out)),
+                Ast::CC(_, l, _) => l.iter().for_each(|x| go(x, bound, out, seen)),
+                Ast::CV(_, l, r) => l.iter().chain(r.iter()).for_each(|x| go(x, bound, out, seen)),
                 Ast::Ite(a, b, c) => {
-                    go(a, bound, out);
-                    go(b, bound, out);
-                    go(c, bound, out)
+                    go(a, bound, out, seen);
+                    go(b, bound, out, seen);
+                    go(c, bound, out, seen)
                 }
                 Ast::Bin(_, l, r) => {
-                    go(l, bound, out);
-                    go(r, bound, out)
+                    go(l, bound, out, seen);
+                    go(r, bound, out, seen)
                 }
                 Ast::False | Ast::True | Ast::Ref(_) => {}
             }
         }
         let mut out = vec![];
-        go(self, &mut vec![], &mut out);
+        go(self, &mut vec![], &mut out, &mut rustc_hash::FxHashSet::default());
         out
     }
 }
